@@ -421,8 +421,12 @@ def impl_run(case):
         m, a = spec_value(s['m']), spec_value(s['a'])
         s['m'], s['a'] = ['int', frs(m * 10)], ['frac', frs(a * 10)]
         r1c, out['r1c'] = _build(s, units)
-        out['inv1'] = _rate(r1.inverted, units)[1]
+        i1, out['inv1'] = _rate(r1.inverted, units)
         out['inv2'] = _rate(r2.inverted, units)[1]
+        if i1 is not None:
+            # the inverse of an inverse is computed afresh from the stored inverse
+            # (seeded C09-f: inverted() cached with a back-link)
+            out['inv1b'] = _rate(i1.inverted, units)[1]
         out['mul12'] = _rate(lambda: r1 * r2, units)[1]
         out['mul21'] = _rate(lambda: r2 * r1, units)[1]
         out['div12'] = _rate(lambda: r1 / r2, units)[1]
@@ -520,6 +524,10 @@ def steps_of(case, r):
         for tag, o, x in (('inv1', o1, 1 / x1), ('inv2', o2, 1 / x2)):
             hz = hazard(x)
             out.append(('inv', f"(SInv {coq_rate(o)} {cbool(hz)} {coq_robs(r[tag])})", hz))
+        if r.get('inv1b') and r['inv1'].get('k') == 'rate':
+            xi = 1 / F(r['inv1']['rate'])
+            out.append(('inv', f"(SInv {coq_rate(r['inv1'])} {cbool(hazard(xi))} "
+                               f"{coq_robs(r['inv1b'])})", hazard(xi)))
         for tag, a, b, x in (('mul12', o1, o2, x1 * x2), ('mul21', o2, o1, x1 * x2)):
             hz = hazard(x)
             out.append(('mul', f"(SMul {coq_rate(a)} {coq_rate(b)} {cbool(hz)} {coq_robs(r[tag])})", hz))
@@ -666,6 +674,10 @@ def oracle(case, r):
             return first_message(msgs)
         for o, inv, nm in ((o1, r['inv1'], 'r1'), (o2, r['inv2'], 'r2')):
             msgs.append(oracle_derived(inv, dm, o['t'], o['u'], 1 / F(o['rate']), nm + '.inverted()'))
+        if r.get('inv1b') and r['inv1'].get('k') == 'rate':
+            i = r['inv1']
+            msgs.append(oracle_derived(r['inv1b'], dm, i['t'], i['u'], 1 / F(i['rate']),
+                                       'r1.inverted().inverted()'))
         for a, b, res, nm in ((o1, o2, r['mul12'], 'r1*r2'), (o2, o1, r['mul21'], 'r2*r1')):
             x = F(a['rate']) * F(b['rate'])
             s1, s2 = a['u'] == b['t'], a['t'] == b['u']
